@@ -149,7 +149,7 @@ func (i *interpreter) registerModels(harnessPkgPath string) {
 	})
 	i.addModel(hp+"vGo", "start a harness thread", func(fr *frame, a []value) value {
 		fr.t.hpoints++
-		fr.t.r.spawn(fr.t, a[0], nil, false, "vGo")
+		fr.t.r.spawn(fr.t, a[0], nil, false, "vGo", false)
 		return nil
 	})
 	i.addModel(hp+"vYield", "scheduling point: any enabled thread may run", func(fr *frame, a []value) value {
@@ -216,7 +216,7 @@ func (i *interpreter) registerModels(harnessPkgPath string) {
 	i.addModel("(*sync.Mutex).Lock", "mutual exclusion; blocks while held", func(fr *frame, a []value) value {
 		t := fr.t
 		st := fieldPtr(a[0].(*value), 0)
-		t.schedPoint("lock")
+		t.schedPointAt(fr, "lock")
 		t.block(func() bool { return asInt64(*st) == 0 }, "Mutex.Lock at "+callerSite(fr))
 		*st = int32(1)
 		t.acquire(st)
@@ -225,7 +225,7 @@ func (i *interpreter) registerModels(harnessPkgPath string) {
 	i.addModel("(*sync.Mutex).TryLock", "non-blocking acquire", func(fr *frame, a []value) value {
 		t := fr.t
 		st := fieldPtr(a[0].(*value), 0)
-		t.schedPoint("trylock")
+		t.schedPointAt(fr, "trylock")
 		if asInt64(*st) == 0 {
 			*st = int32(1)
 			t.acquire(st)
@@ -261,7 +261,7 @@ func (i *interpreter) registerModels(harnessPkgPath string) {
 		t := fr.t
 		p := a[0].(*value)
 		s := rw(fr, p)
-		t.schedPoint("lock")
+		t.schedPointAt(fr, "lock")
 		t.block(func() bool { return !s.writer && s.readers == 0 }, "RWMutex.Lock at "+callerSite(fr))
 		s.writer = true
 		t.acquire(p)
@@ -271,7 +271,7 @@ func (i *interpreter) registerModels(harnessPkgPath string) {
 		t := fr.t
 		p := a[0].(*value)
 		s := rw(fr, p)
-		t.schedPoint("trylock")
+		t.schedPointAt(fr, "trylock")
 		if !s.writer && s.readers == 0 {
 			s.writer = true
 			t.acquire(p)
@@ -294,7 +294,7 @@ func (i *interpreter) registerModels(harnessPkgPath string) {
 		t := fr.t
 		p := a[0].(*value)
 		s := rw(fr, p)
-		t.schedPoint("rlock")
+		t.schedPointAt(fr, "rlock")
 		t.block(func() bool { return !s.writer }, "RWMutex.RLock at "+callerSite(fr))
 		s.readers++
 		t.acquire(p)
@@ -304,7 +304,7 @@ func (i *interpreter) registerModels(harnessPkgPath string) {
 		t := fr.t
 		p := a[0].(*value)
 		s := rw(fr, p)
-		t.schedPoint("tryrlock")
+		t.schedPointAt(fr, "tryrlock")
 		if !s.writer {
 			s.readers++
 			t.acquire(p)
@@ -338,7 +338,7 @@ func (i *interpreter) registerModels(harnessPkgPath string) {
 		t := fr.t
 		p := a[0].(*value)
 		s := wgs(fr, p)
-		t.schedPoint("wg.add")
+		t.schedPointAt(fr, "wg.add")
 		s.n += t.r.concInt(a[1], "wg.add")
 		if s.n < 0 {
 			panic(targetPanic{iface{types.Typ[types.String], "sync: negative WaitGroup counter"}})
@@ -350,7 +350,7 @@ func (i *interpreter) registerModels(harnessPkgPath string) {
 		t := fr.t
 		p := a[0].(*value)
 		s := wgs(fr, p)
-		t.schedPoint("wg.done")
+		t.schedPointAt(fr, "wg.done")
 		s.n--
 		if s.n < 0 {
 			panic(targetPanic{iface{types.Typ[types.String], "sync: negative WaitGroup counter"}})
@@ -362,7 +362,7 @@ func (i *interpreter) registerModels(harnessPkgPath string) {
 		t := fr.t
 		p := a[0].(*value)
 		s := wgs(fr, p)
-		t.schedPoint("wg.wait")
+		t.schedPointAt(fr, "wg.wait")
 		t.block(func() bool { return s.n == 0 }, "WaitGroup.Wait at "+callerSite(fr))
 		t.acquire(p)
 		return nil
@@ -393,7 +393,7 @@ func (i *interpreter) registerModels(harnessPkgPath string) {
 		t := fr.t
 		p := a[0].(*value)
 		s := sm(fr, p)
-		t.schedPoint("syncmap")
+		t.schedPointAt(fr, "syncmap")
 		t.acquire(p)
 		if i := smFind(fr, s, a[1]); i >= 0 {
 			return tuple{s.entries[i].v, true}
@@ -404,7 +404,7 @@ func (i *interpreter) registerModels(harnessPkgPath string) {
 		t := fr.t
 		p := a[0].(*value)
 		s := sm(fr, p)
-		t.schedPoint("syncmap")
+		t.schedPointAt(fr, "syncmap")
 		if i := smFind(fr, s, a[1]); i >= 0 {
 			s.entries[i].v = a[2]
 		} else {
@@ -418,7 +418,7 @@ func (i *interpreter) registerModels(harnessPkgPath string) {
 		t := fr.t
 		p := a[0].(*value)
 		s := sm(fr, p)
-		t.schedPoint("syncmap")
+		t.schedPointAt(fr, "syncmap")
 		t.acquire(p)
 		if i := smFind(fr, s, a[1]); i >= 0 {
 			return tuple{s.entries[i].v, true}
@@ -431,7 +431,7 @@ func (i *interpreter) registerModels(harnessPkgPath string) {
 		t := fr.t
 		p := a[0].(*value)
 		s := sm(fr, p)
-		t.schedPoint("syncmap")
+		t.schedPointAt(fr, "syncmap")
 		t.acquire(p)
 		if i := smFind(fr, s, a[1]); i >= 0 {
 			v := s.entries[i].v
@@ -445,7 +445,7 @@ func (i *interpreter) registerModels(harnessPkgPath string) {
 		t := fr.t
 		p := a[0].(*value)
 		s := sm(fr, p)
-		t.schedPoint("syncmap")
+		t.schedPointAt(fr, "syncmap")
 		t.acquire(p)
 		if i := smFind(fr, s, a[1]); i >= 0 {
 			s.entries = append(append([]*smEntry{}, s.entries[:i]...), s.entries[i+1:]...)
@@ -457,7 +457,7 @@ func (i *interpreter) registerModels(harnessPkgPath string) {
 		t := fr.t
 		p := a[0].(*value)
 		s := sm(fr, p)
-		t.schedPoint("syncmap")
+		t.schedPointAt(fr, "syncmap")
 		t.acquire(p)
 		snap := append([]*smEntry{}, s.entries...)
 		// the iteration order of sync.Map.Range is unspecified: insertion order and its
@@ -494,7 +494,7 @@ func (i *interpreter) registerModels(harnessPkgPath string) {
 		t := fr.t
 		p := a[0].(*value)
 		s := sm(fr, p)
-		t.schedPoint("syncmap")
+		t.schedPointAt(fr, "syncmap")
 		s.entries = nil
 		t.acquire(p)
 		t.release(p)
@@ -509,20 +509,20 @@ func (i *interpreter) registerModels(harnessPkgPath string) {
 		ty := ty
 		i.addModel("sync/atomic.Load"+ty.name, "sequentially consistent atomic load", func(fr *frame, a []value) value {
 			p := nonNil(a[0].(*value))
-			fr.t.schedPoint("atomic")
+			fr.t.schedPointAt(fr, "atomic")
 			fr.t.acquire(p)
 			return *p
 		})
 		i.addModel("sync/atomic.Store"+ty.name, "sequentially consistent atomic store", func(fr *frame, a []value) value {
 			p := nonNil(a[0].(*value))
-			fr.t.schedPoint("atomic")
+			fr.t.schedPointAt(fr, "atomic")
 			*p = a[1]
 			fr.t.release(p)
 			return nil
 		})
 		i.addModel("sync/atomic.Add"+ty.name, "atomic add", func(fr *frame, a []value) value {
 			p := nonNil(a[0].(*value))
-			fr.t.schedPoint("atomic")
+			fr.t.schedPointAt(fr, "atomic")
 			fr.t.acquire(p)
 			*p = fr.t.r.binop(tokenADD, ty.t, *p, a[1])
 			fr.t.release(p)
@@ -530,7 +530,7 @@ func (i *interpreter) registerModels(harnessPkgPath string) {
 		})
 		i.addModel("sync/atomic.Swap"+ty.name, "atomic swap", func(fr *frame, a []value) value {
 			p := nonNil(a[0].(*value))
-			fr.t.schedPoint("atomic")
+			fr.t.schedPointAt(fr, "atomic")
 			fr.t.acquire(p)
 			old := *p
 			*p = a[1]
@@ -539,7 +539,7 @@ func (i *interpreter) registerModels(harnessPkgPath string) {
 		})
 		i.addModel("sync/atomic.CompareAndSwap"+ty.name, "atomic compare-and-swap", func(fr *frame, a []value) value {
 			p := nonNil(a[0].(*value))
-			fr.t.schedPoint("atomic")
+			fr.t.schedPointAt(fr, "atomic")
 			fr.t.acquire(p)
 			if fr.t.r.truth(fr.t.r.eqv(ty.t, *p, a[1]), "cas") {
 				*p = a[2]
@@ -565,20 +565,20 @@ func (i *interpreter) registerModels(harnessPkgPath string) {
 	}
 	i.addModel("(*sync/atomic.Pointer[T]).Load", "atomic pointer load", func(fr *frame, a []value) value {
 		f := ptrField(a)
-		fr.t.schedPoint("atomic")
+		fr.t.schedPointAt(fr, "atomic")
 		fr.t.acquire(f)
 		return asPtr(*f)
 	})
 	i.addModel("(*sync/atomic.Pointer[T]).Store", "atomic pointer store", func(fr *frame, a []value) value {
 		f := ptrField(a)
-		fr.t.schedPoint("atomic")
+		fr.t.schedPointAt(fr, "atomic")
 		*f = a[1]
 		fr.t.release(f)
 		return nil
 	})
 	i.addModel("(*sync/atomic.Pointer[T]).Swap", "atomic pointer swap", func(fr *frame, a []value) value {
 		f := ptrField(a)
-		fr.t.schedPoint("atomic")
+		fr.t.schedPointAt(fr, "atomic")
 		fr.t.acquire(f)
 		old := asPtr(*f)
 		*f = a[1]
@@ -587,7 +587,7 @@ func (i *interpreter) registerModels(harnessPkgPath string) {
 	})
 	i.addModel("(*sync/atomic.Pointer[T]).CompareAndSwap", "atomic pointer CAS", func(fr *frame, a []value) value {
 		f := ptrField(a)
-		fr.t.schedPoint("atomic")
+		fr.t.schedPointAt(fr, "atomic")
 		fr.t.acquire(f)
 		if asPtr(*f) == asPtr(a[1]) {
 			*f = a[2]
@@ -599,7 +599,7 @@ func (i *interpreter) registerModels(harnessPkgPath string) {
 	// atomic.Value: field v any
 	i.addModel("(*sync/atomic.Value).Load", "atomic.Value load", func(fr *frame, a []value) value {
 		f := fieldPtr(a[0].(*value), 0)
-		fr.t.schedPoint("atomic")
+		fr.t.schedPointAt(fr, "atomic")
 		fr.t.acquire(f)
 		return *f
 	})
@@ -608,14 +608,14 @@ func (i *interpreter) registerModels(harnessPkgPath string) {
 		if a[1].(iface).t == nil {
 			panic(targetPanic{iface{types.Typ[types.String], "sync/atomic: store of nil value into Value"}})
 		}
-		fr.t.schedPoint("atomic")
+		fr.t.schedPointAt(fr, "atomic")
 		*f = a[1]
 		fr.t.release(f)
 		return nil
 	})
 	i.addModel("(*sync/atomic.Value).Swap", "atomic.Value swap", func(fr *frame, a []value) value {
 		f := fieldPtr(a[0].(*value), 0)
-		fr.t.schedPoint("atomic")
+		fr.t.schedPointAt(fr, "atomic")
 		fr.t.acquire(f)
 		old := *f
 		*f = a[1]
@@ -624,7 +624,7 @@ func (i *interpreter) registerModels(harnessPkgPath string) {
 	})
 	i.addModel("(*sync/atomic.Value).CompareAndSwap", "atomic.Value CAS", func(fr *frame, a []value) value {
 		f := fieldPtr(a[0].(*value), 0)
-		fr.t.schedPoint("atomic")
+		fr.t.schedPointAt(fr, "atomic")
 		fr.t.acquire(f)
 		if fr.t.r.truth(fr.t.r.eqv(anyT, *f, a[1]), "cas") {
 			*f = a[2]
@@ -744,7 +744,7 @@ func (t *thread) yieldForced() {
 		return
 	}
 	c := r.decide("gosched", len(en))
-	t.switchTo(en[c], "lpreempt")
+	t.switchTo(en[c], "gosched")
 }
 
 // ---------------------------------------------------------------------------
